@@ -11,7 +11,7 @@ import impl  # noqa: E402
 import schema as S  # noqa: E402
 
 HEADER = ("From Coq Require Import ZArith List Bool.\n"
-          "From Prophy Require Import Bytes Schema Layout Wire Src PyStatics PyEncode PyDecode ApiSpec CheckLib.\n"
+          "From Prophy Require Import Bytes Schema Layout Wire Src PyStatics PyEncode PyDecode ApiSpec Text CheckLib.\n"
           "Import ListNotations.\nLocal Open Scope Z_scope.\n")
 
 
